@@ -1,6 +1,7 @@
 package vlib
 
 import (
+	"reflect"
 	"fmt"
 	"math/big"
 	"sort"
@@ -372,3 +373,15 @@ func CanonStats(s *store.Stats, err error) string {
 	return fmt.Sprintf("ok activeHosts=%d totalHosts=%d activeClients=%d totalClients=%d block=%d credit=%s deposit=%s trials=%d",
 		s.NumActiveHosts, s.NumTotalHosts, s.NumActiveClients, s.NumTotalClients, s.LatestBlockNumber, s.TotalCredit.String(), s.TotalDeposit.String(), s.NumTrialBalances)
 }
+
+// SetPayout sets a node's payout account from a string whatever the field's
+// exact type is (the harness should build against a tree that re-types it).
+func SetPayout(n *store.Node, payout string) {
+	f := reflect.ValueOf(n).Elem().FieldByName("Payout")
+	if f.IsValid() && f.Kind() == reflect.String && f.CanSet() {
+		f.SetString(payout)
+	}
+}
+
+// PayoutString renders a node's payout account.
+func PayoutString(n *store.Node) string { return fmt.Sprint(reflect.ValueOf(n).Elem().FieldByName("Payout").Interface()) }
